@@ -44,9 +44,18 @@ def toProbe? : Sexp → Option (Str × List (Str × Option Str))
     pure (n, as)
   | _ => none
 
-/-- `(tageq probe*)`: the matrix of `isTagEqual` over the probes, row by row -/
+/-- the probes as elements of the model (AHP/Model/Coll.lean, `Ident.Elem`): detached, childless, uid = position -/
+def probeElems (ps : List (Str × List (Str × Option Str))) : List Ident.Elem :=
+  (ps.zip (List.range ps.length)).map (fun (p, i) => ⟨i, p.1, p.2, []⟩)
+
+/-- `(tageq probe*)`: the matrix of `isTagEqual` over the probes, row by row (`Ident.Elem.isTagEqual`: name and
+    attributes only — every probe has its own uid).  The identity functions `Ident.Elem.eq/ne/hash` are not called
+    by this driver: the wire carries uids, the collection model compares uids (`Nat` equality), which
+    `C18.list_primitives_by_uid` proves to be the element-level primitives; identity on the library is decided by the
+    harness's identity oracle. -/
 def tagEqMatrix (ps : List (Str × List (Str × Option Str))) : Sexp :=
-  .list (ps.map (fun p => bits (ps.map (fun q => isTagEqual p.1 p.2 q.1 q.2))))
+  let es := probeElems ps
+  .list (es.map (fun p => bits (es.map (fun q => p.isTagEqual q))))
 
 def stepOp (c : Coll) : Sexp → Option (Option Coll)   -- outer none = bad op
   | .list (.atom "ctor" :: xs) => (nats xs).map (fun xs => some (Coll.ofList xs))
